@@ -94,21 +94,34 @@ def judgeGo (c : Ctx) (pos marked : Nat) : List Tok → List Tok → Verdict
 
 def judgeToks (base probe : List Tok) : Verdict := judgeGo Ctx.init 0 0 base probe
 
-/-- Empty-string probe of a `*string` field: the probe's stream must keep the baseline's skeleton; only the
-words that carry the marker in the BASELINE (the benign value) may be replaced by another word. -/
-def judgeEmptyGo (c : Ctx) (pos : Nat) : List Tok → List Tok → Verdict
+/-- for every token: does the statement it belongs to contain a marker-bearing word? -/
+def stmtFlags (ts : List Tok) : List Bool :=
+  let rec go : List Tok → List Tok → List Bool
+    | [], cur => cur.map (fun _ => cur.any (fun t => match t with | .word s _ => hasMarker s | _ => false))
+    | t :: rest, cur =>
+      match t with
+      | .word _ _ => go rest (cur ++ [t])
+      | _ =>
+        let f := cur.any (fun t => match t with | .word s _ => hasMarker s | _ => false)
+        (cur.map (fun _ => f)) ++ [f] ++ go rest []
+  go ts []
+
+/-- Empty-string probe of a `*string` field: the probe's stream must keep the baseline's skeleton (same
+length, same punctuation); argument words may differ only inside statements whose BASELINE form carries the
+marker (the directive the benign value is rendered into). -/
+def judgeEmptyGo (c : Ctx) (pos : Nat) : List (Tok × Bool) → List Tok → Verdict
   | [], [] => .ok 0
   | [], p :: _ => .fail "empty-argument" pos ("extra token " ++ tokStr p ++ " after " ++ ctxStr c)
-  | b :: _, [] => .fail "empty-argument" pos ("missing token " ++ tokStr b ++ " after " ++ ctxStr c)
-  | b :: bs, p :: ps =>
+  | (b, _) :: _, [] => .fail "empty-argument" pos ("missing token " ++ tokStr b ++ " after " ++ ctxStr c)
+  | (b, own) :: bs, p :: ps =>
     if b == p then judgeEmptyGo (c.advance p) (pos + 1) bs ps
     else match b, p with
-      | .word sb _, .word _ _ =>
-        if hasMarker sb then judgeEmptyGo (c.advance p) (pos + 1) bs ps
+      | .word _ _, .word _ _ =>
+        if own then judgeEmptyGo (c.advance p) (pos + 1) bs ps
         else .fail "empty-argument" pos (tokStr p ++ " instead of " ++ tokStr b ++ " in " ++ ctxStr c)
       | _, _ => .fail "empty-argument" pos (tokStr p ++ " instead of " ++ tokStr b ++ " in " ++ ctxStr c)
 
-def judgeEmpty (base probe : List Tok) : Verdict := judgeEmptyGo Ctx.init 0 base probe
+def judgeEmpty (base probe : List Tok) : Verdict := judgeEmptyGo Ctx.init 0 (base.zip (stmtFlags base)) probe
 
 /-- the skeleton of a token stream: marker-bearing words are replaced by a placeholder -/
 def skeleton (ts : List Tok) : List Tok :=
